@@ -41,6 +41,9 @@ type P4 struct {
 }
 type P5 struct{ I interface{} }
 
+// P6 is a component type that is itself a pointer type (to a pointer-free struct).
+type P6 = *Obj
+
 // Plain components used to move rows between tables.
 type V1 struct{ X uint64 }
 type V2 struct{ A, B uint32 }
